@@ -486,6 +486,7 @@ pub fn run_channel<R: Read + Seek>(src: R, f: &TestFile, ops: &[Op], seekable: b
                     {
                         let b = match rd.fill_buf() {
                             Ok(b) => b,
+                            Err(_) if flaky() => return out,
                             Err(e) => {
                                 out.divergence = diverge(step, op, format!("error {e:?}"));
                                 return out;
